@@ -15,7 +15,6 @@ CONSTANTS
   DialFails = FALSE
   SfScripted = FALSE
   EnvLite = FALSE
-  AsIs_Spin = FALSE
   AsIs_SharedConfig = FALSE
   Mut = "none"
 SPECIFICATION TSpec
